@@ -1198,7 +1198,10 @@ def observe_pyviews(case):
         o += [_ints(t.leaves(r)) for r in starts]
         o += [_ints(t.samples(r)) for r in starts]
         trees.append(o)
-    return {"edges": edges, "obs": [dl(), dl(include_terminal=True)] + trees}
+    esets = []
+    for e in ts.edgesets():
+        esets += [[inv[float(e.left)], inv[float(e.right)], int(e.parent)], _ints(e.children)]
+    return {"edges": edges, "obs": [dl(), dl(include_terminal=True)] + trees, "edgesets": esets}
 
 
 class PyViewsBase(SweepBase):
@@ -1215,7 +1218,8 @@ class PyViewsBase(SweepBase):
         ns = "[" + "; ".join("mkNode %s %s" % (cbool(nd[0] & 1), cz(nd[1])) for nd in desc["nodes"]) + "]"
         es = "[" + "; ".join("mkEdge %s %s %s %s" % tuple(cz(x) for x in e) for e in obs["edges"]) + "]"
         o = "(mkOpts %s %s %s)" % (cz(case["thr"]), cbool(case["sample_lists"]), clist(case.get("tracked") or []))
-        return "res_eqb zlll_eqb (model_pyviews %s %s %s %s) %s" % (cz(2 * desc["L"]), ns, es, o, clll(obs["obs"]))
+        return ("res_eqb zlll_eqb (model_pyviews %s %s %s %s) %s && res_eqb zll_eqb (model_edgesets %s %s %s) %s"
+                % (cz(2 * desc["L"]), ns, es, o, clll(obs["obs"]), cz(2 * desc["L"]), ns, es, cll(obs["edgesets"])))
 
     def describe(self, case, obs):
         d = case["desc"]
